@@ -247,3 +247,9 @@ func precedence(a, b int, p *int, q **int, s []int, t T) {
 	_ = []int{load(p), -load(p)}
 	deref(*load(p), b)
 }
+
+func threeLists() {
+	foo(1, 2)
+	bar(3)
+	qux(4, 5, 6)
+}
